@@ -308,7 +308,7 @@ def kronecker(ctx):
 
 
 MB_CONFIGS = ("default d=3", "default PGA d=3", "explicit signature [-1,0,1,1]", "named basis 2DPGA", "named basis 3DPGA",
-              "custom basis, spelled blades", "custom basis, permuted generators")
+              "custom basis, spelled blades", "custom basis, permuted generators", "custom basis, only an orientation differs")
 
 
 def _mb_kwargs(repo, label):
@@ -320,10 +320,13 @@ def _mb_kwargs(repo, label):
             "explicit signature [-1,0,1,1]": dict(signature=[-1, 0, 1, 1]),
             "custom basis, spelled blades": dict(p=2, r=1, basis=["e", "e1", "e0", "e2", "e10", "e02", "e21", "e021"]),
             "custom basis, permuted generators": dict(p=2, q=1, basis=["e", "e2", "e3", "e1", "e23", "e31", "e12", "e123"]),
+            # every blade at its default position, one of them spelled with the other orientation
+            "custom basis, only an orientation differs": dict(p=3, basis=["e", "e1", "e2", "e3", "e12", "e31", "e23", "e123"]),
             }[label]
 
 
-@rule("C14.matrix-basis", props=["C14", "C18"], min_instances=7, mutants=[
+@rule("C14.matrix-basis", props=["C14", "C18"], min_instances=8, mutants=[
+    ("a custom basis with the default blade sets is taken for the default basis", ("matrixreps", "    if blades is not None:\n        # A custom basis", "    if blades is not None and [tuple(sorted(blade)) for blade in blades] != [comb for i in range(d + 1) for comb in combinations(range(d), r=i)]:\n        # A custom basis")),
     ("null generator literal transposed (first column zero)", ("matrixreps", "Z2 = np.array([[0,0], [1,0]])", "Z2 = np.array([[0,1], [0,0]])")),
     ("matrix basis ignores the basis of the algebra", ("algebra", "        return matrix_rep(self.p, self.q, self.r, signature=self.signature, blades=blades)", "        return matrix_rep(self.p, self.q, self.r, signature=self.signature)")),
     ("blades multiplied in descending spelled order", ("matrixreps", "        Rs = [reduce(lambda x, y: x @ y, (Es[j] for j in blade), Iden) for blade in blades]", "        Rs = [reduce(lambda x, y: y @ x, (Es[j] for j in blade), Iden) for blade in blades]")),
